@@ -668,6 +668,7 @@ func cleanupKeepsMembers(c *Ctx, g *load.G, cf *ast.FuncDecl) string {
 				continue // the node is not a class: nothing to do on this path
 			}
 			nRebuild++
+			viaHelper := map[string]bool{}
 			for _, field := range []string{"Chars", "Ranges", "UnicodeClasses"} {
 				v, iv := lastSet(p, X+"."+field)
 				if iv < 0 {
@@ -676,6 +677,18 @@ func cleanupKeepsMembers(c *Ctx, g *load.G, cf *ast.FuncDecl) string {
 				}
 				if v == "nil" {
 					continue // the other arm installs the rebuilt list; an empty result is stored as nil
+				}
+				if m := helperCallRe.FindStringSubmatch(v); m != nil && m[2] == X+"."+field && field != "Ranges" {
+					// the duplicate removal of this list lives in a helper: the same obligations on its parameter
+					if hd := load.FuncDecl(ap, "", m[1]); hd != nil && hd.Type.Params.NumFields() == 1 && len(hd.Type.Params.List[0].Names) == 1 {
+						if why := dedupHelperKeepsMembers(c.astNorm().normPaths(hd), hd.Type.Params.List[0].Names[0].Name); why == "" {
+							installed[field]++
+							viaHelper[field] = true
+						} else {
+							bad = append(bad, field+" is rebuilt by "+m[1]+": "+why)
+						}
+						continue
+					}
 				}
 				if dollarRe.FindString(v) != v {
 					bad = append(bad, field+" is replaced by "+abbreviate(v)+", not by the list of kept members")
@@ -747,6 +760,12 @@ func cleanupKeepsMembers(c *Ctx, g *load.G, cf *ast.FuncDecl) string {
 			}
 			// a member that was seen before is not kept, one that was not seen is
 			for _, field := range []string{"Chars", "UnicodeClasses"} {
+				if viaHelper[field] {
+					continue
+				}
+				if v, _ := lastSet(p, X+"."+field); v == "nil" && p.holds("len("+X+"."+field+")==0") {
+					continue // an empty list stays empty: there is no member to keep or to drop on this path
+				}
 				lo, hi := loopSpan(p, "range "+X+"."+field)
 				if lo < 0 {
 					bad = append(bad, "no loop over "+field)
@@ -1177,4 +1196,83 @@ func classTextIsDisplayOnly(c *Ctx, g *load.G, rule string) {
 	r.Check(len(bad) == 0 && n >= 1, rule, "G:class-text-is-display-only", "", "builder/, ast/ast_optimize.go",
 		fmt.Sprintf("%d read(s) of CharClassMatcher.Val, all emitting the `val:` key", n),
 		strings.Join(bad, "; ")+": the optimizer rebuilds that text from the member lists without escaping ^ - ] \\\\ ('^' / '*' becomes a class that reads \"[^*]\"), so with -optimize-grammar two different classes can carry the same text and are taken for one")
+}
+
+var helperCallRe = regexp.MustCompile(`^([A-Za-z_]\w*)\(([^(),]+)\)$`)
+
+// dedupHelperKeepsMembers: the obligations of C09-f on a helper `func h(list []T) []T` that removes duplicates: it
+// returns nil for an empty list, and otherwise a list built only by appending, in a loop over the parameter, the member
+// the loop stands at - exactly when a set keyed by that member did not hold it yet.
+func dedupHelperKeepsMembers(paths []bpath, param string) string {
+	if len(paths) == 0 {
+		return "no paths"
+	}
+	var bad []string
+	loops := 0
+	for _, p := range paths {
+		ret := ""
+		for _, e := range p {
+			if e.Kind == "return" {
+				ret = e.Text
+			}
+		}
+		switch {
+		case ret == "nil":
+			if !p.holds("len(" + param + ")==0") {
+				bad = append(bad, "returns nil for a list that is not known to be empty")
+			}
+			continue
+		case ret == param:
+			if !p.holds("len(" + param + ")==0") {
+				bad = append(bad, "returns the list as it came")
+			}
+			continue
+		case dollarRe.FindString(ret) != ret || ret == "":
+			bad = append(bad, "returns "+abbreviate(ret)+", not the list of kept members")
+			continue
+		}
+		lo, hi := loopSpan(p, "range "+param)
+		if lo < 0 {
+			bad = append(bad, "no loop over the list")
+			continue
+		}
+		loops++
+		member := param + "[#1]"
+		seen, kept := false, false
+		for i, e := range p {
+			if e.Kind != "set" || !strings.HasPrefix(e.Text, ret+"=") {
+				continue
+			}
+			rhs := strings.TrimPrefix(e.Text, ret+"=")
+			if strings.HasPrefix(rhs, "make(") {
+				continue
+			}
+			if rhs != "append("+ret+","+member+")" || i < lo || i >= hi {
+				bad = append(bad, "the kept list receives "+abbreviate(rhs)+", expected the member the loop stands at")
+				continue
+			}
+			kept = true
+			keyOK := false
+			for _, f := range p[:i].facts() {
+				if strings.HasPrefix(f, "!ok($") && strings.HasSuffix(f, "["+member+"])") {
+					keyOK = true
+				}
+			}
+			if !keyOK {
+				bad = append(bad, "a member is kept without the not-seen-before test on the member itself")
+			}
+		}
+		for _, e := range p[lo:hi] {
+			if e.Kind == "+" && strings.HasPrefix(e.Text, "ok($") {
+				seen = true
+			}
+		}
+		if seen == kept && hi > lo+1 {
+			bad = append(bad, "a member is kept although it was seen, or dropped although it was not")
+		}
+	}
+	if loops == 0 {
+		bad = append(bad, "no path rebuilds the list")
+	}
+	return strings.Join(uniq(bad), "; ")
 }
